@@ -7,7 +7,10 @@ dirty=0
 if [ -n "$(git -C /repo status --porcelain --untracked-files=no)" ]; then dirty=1; fi
 git -C /repo apply "$patch" || { echo "patch does not apply"; exit 2; }
 for id in "$@"; do
+  # evidence written while a change is applied is not evidence: keep the file of the unchanged tree
+  keep=$(mktemp); cp /verif/evidence/$id.json $keep 2>/dev/null
   out=$(cd /verif && ./check $id ${TIER:-quick} 2>&1); rc=$?
+  [ -s $keep ] && cp $keep /verif/evidence/$id.json; rm -f $keep
   echo "$out" | grep -E "VIOLATION|rule |BUILD FAILED|SIMULATOR BUG" | head -4 | cut -c1-300
   echo "== $id exit $rc  ($(echo "$out" | grep -E "runs, " | tr '\n' ' '))"
 done
